@@ -10,7 +10,8 @@ import json, subprocess, sys, time
 from pathlib import Path
 
 VERIF = Path(__file__).resolve().parent.parent
-REPO = "/repo"
+import os
+REPO = os.environ.get("SEED_REPO", "/repo")     # (a scratch worktree of /repo, so that seeds can be tried while /repo is busy)
 PY = "/venv/bin/python"
 
 def sh(cmd, **kw):
@@ -41,7 +42,7 @@ def main():
             t0 = time.time()
             ev = VERIF / "evidence" / f"{c}.json"          # evidence must describe the UNCHANGED tree: put it back afterwards
             saved = ev.read_text() if ev.exists() else None
-            r = sh(f"cd {VERIF} && VERIF_SEED={meta.get('seed', 0)} ./check {c} --tier quick")
+            r = sh(f"cd {VERIF} && VERIF_REPO={REPO} VERIF_SEED={meta.get('seed', 0)} ./check {c} --tier quick")
             if saved is not None:
                 ev.write_text(saved)
             viol = [l for l in r.stdout.splitlines() if l.startswith("VIOLATION")]
